@@ -22,6 +22,7 @@ EXPLANATION = (
     "afterwards; the width caches are keyed by 'nothing ignored' (C09.R5); (R4) the four reachability tables of stDAG are dynamic programs whose neighbour direction (successors for 'from', predecessors for 'reaching'), "
     "processing order (every neighbour final before it is read), seed (a node reaches itself; an edge table starts empty) and edge orientation agree with the query they answer, and the per-node queries of stDiGraph use descendants / ancestors of the condensation united with the node's own SCC; (R5) the greedy peeling subtracts, on every edge of each peeled path of a private working copy, exactly the value it publishes as that path's weight, "
     "(R6) the min-cost-flow network of the maximum edge antichain: demand = caller's weight (0 if missing) / 1 for input edges and 0 for synthetic edges; cost 1 exactly on edges leaving the source.  "
+    " (R6, extended) the demand of the antichain network is selected by `weight_function is not None`; selecting by truth value (empty dict treated as absent) is a violation. "
     "and the bottleneck DP takes min(predecessor value, edge value), updates value and predecessor together and reports the value of the path it reconstructs.  NOT decided: that the answers equal a direct graph search, "
     "antichain maximality, peeling arithmetic."
 )
